@@ -28,7 +28,7 @@ import (
 
 type ev struct {
 	Op  string   `json:"op"`
-	In  []string `json:"in"`  // big integers as decimal strings (prices and weights are numerators over 10^18)
+	In  []string `json:"in"` // big integers as decimal strings (prices and weights are numerators over 10^18)
 	Out []string `json:"out"`
 }
 
@@ -63,7 +63,9 @@ type env struct {
 	n   int
 }
 
-func (e *env) addr(i int) sdk.AccAddress { return sdk.AccAddress([]byte(fmt.Sprintf("verif-ev18-addr-%04d", i))) }
+func (e *env) addr(i int) sdk.AccAddress {
+	return sdk.AccAddress([]byte(fmt.Sprintf("verif-ev18-addr-%04d", i)))
+}
 
 func (e *env) fund(a sdk.AccAddress, coins sdk.Coins) {
 	if err := e.app.BankKeeper.MintCoins(e.ctx, minttypes.ModuleName, coins); err != nil {
@@ -74,7 +76,9 @@ func (e *env) fund(a sdk.AccAddress, coins sdk.Coins) {
 	}
 }
 
-func (e *env) bal(a sdk.AccAddress, d string) *big.Int { return e.app.BankKeeper.GetBalance(e.ctx, a, d).Amount.BigInt() }
+func (e *env) bal(a sdk.AccAddress, d string) *big.Int {
+	return e.app.BankKeeper.GetBalance(e.ctx, a, d).Amount.BigInt()
+}
 
 func s(x *big.Int) string { return x.String() }
 
@@ -103,6 +107,16 @@ func main() {
 		e.fund(bidder, sdk.NewCoins(sdk.NewCoin("denoma", sdkmath.NewIntFromBigInt(huge)), sdk.NewCoin("denomb", sdkmath.NewIntFromBigInt(huge))))
 		p := randPrice(r)
 		amt := randBig(r, 30)
+		if r.Intn(3) == 0 {
+			// quotient amt/p just below an integer (within half a unit of the 18th decimal): p = m + 10^-18, amt = k*m with k < m/2,
+			// so that rounding the quotient instead of truncating it would give one coin too many
+			m := new(big.Int).Add(randBig(r, 6), big.NewInt(2))
+			k := new(big.Int).Add(new(big.Int).Rand(r, new(big.Int).Div(m, big.NewInt(2))), big.NewInt(1))
+			if new(big.Int).Mul(k, big.NewInt(2)).Cmp(m) < 0 {
+				p = new(big.Int).Add(new(big.Int).Mul(m, one18), big.NewInt(1))
+				amt = new(big.Int).Mul(k, m)
+			}
+		}
 		supply := new(big.Int).Exp(big.NewInt(10), big.NewInt(58), nil)
 		func() {
 			defer func() {
@@ -150,6 +164,20 @@ func main() {
 			case 2: // batch auction: a worth bid and a quantity bid by two bidders, one modification, settlement
 				bidder2 := e.addr(3)
 				e.fund(bidder2, sdk.NewCoins(sdk.NewCoin("denomb", sdkmath.NewIntFromBigInt(huge))))
+				// every second scenario: the supply is tight and bidder 1 also holds a losing worth bid at a lower price, so that the
+				// clearing price stays p and an over-allocation of the winning worth bid is not masked by a failing refund
+				var p0, amt0 *big.Int
+				qPlan := randBig(r, 20)
+				if i%8 == 2 && p.Cmp(big.NewInt(3)) >= 0 {
+					tight := new(big.Int).Add(new(big.Int).Add(new(big.Int).Div(new(big.Int).Mul(amt, one18), p), qPlan), big.NewInt(1+int64(r.Intn(2))))
+					p0 = new(big.Int).Div(new(big.Int).Add(p, big.NewInt(1)), big.NewInt(2))
+					amt0 = new(big.Int).Div(new(big.Int).Mul(p0, tight), one18)
+					if amt0.Sign() > 0 && tight.Cmp(new(big.Int).Exp(big.NewInt(10), big.NewInt(57), nil)) < 0 {
+						supply = tight
+					} else {
+						p0, amt0 = nil, nil
+					}
+				}
 				au, err := e.k.CreateBatchAuction(e.ctx, &frtypes.MsgCreateBatchAuction{Auctioneer: auctioneer.String(), StartPrice: decFromNum(p), MinBidPrice: decFromNum(big.NewInt(1)),
 					SellingCoin: sdk.NewCoin("denoma", sdkmath.NewIntFromBigInt(supply)), PayingCoinDenom: "denomb", MaxExtendedRound: 0,
 					ExtendedRoundRate: sdkmath.LegacyOneDec(), StartTime: t0, EndTime: t0.Add(48 * time.Hour)})
@@ -164,7 +192,7 @@ func main() {
 				}
 				// quantity bid of amt at price p2 >= p by bidder 2, modified once
 				p2 := new(big.Int).Add(p, randBig(r, 18))
-				q := randBig(r, 20)
+				q := qPlan
 				before2 := e.bal(bidder2, "denomb")
 				b2, err := e.k.PlaceBid(e.ctx, &frtypes.MsgPlaceBid{AuctionId: id, Bidder: bidder2.String(), BidType: frtypes.BidTypeBatchMany, Price: decFromNum(p2),
 					Coin: sdk.NewCoin("denoma", sdkmath.NewIntFromBigInt(q))})
@@ -175,6 +203,9 @@ func main() {
 				enc.Encode(ev{Op: "reserve_many", In: []string{s(q), s(p2)}, Out: []string{s(res1)}})
 				q3 := new(big.Int).Add(q, randBig(r, 10))
 				p3 := new(big.Int).Add(p2, randBig(r, 17))
+				if p0 != nil {
+					q3 = q // keep the planned quantity when the supply is tight
+				}
 				if err := e.k.ModifyBid(e.ctx, &frtypes.MsgModifyBid{AuctionId: id, Bidder: bidder2.String(), BidId: b2.Id, Price: decFromNum(p3),
 					Coin: sdk.NewCoin("denoma", sdkmath.NewIntFromBigInt(q3))}); err == nil {
 					res2 := new(big.Int).Sub(before2, e.bal(bidder2, "denomb"))
@@ -186,6 +217,12 @@ func main() {
 				if _, err := e.k.PlaceBid(e.ctx, &frtypes.MsgPlaceBid{AuctionId: id, Bidder: bidder.String(), BidType: frtypes.BidTypeBatchWorth, Price: decFromNum(p),
 					Coin: sdk.NewCoin("denomb", sdkmath.NewIntFromBigInt(amt))}); err != nil {
 					return
+				}
+				if p0 != nil {
+					if _, err := e.k.PlaceBid(e.ctx, &frtypes.MsgPlaceBid{AuctionId: id, Bidder: bidder.String(), BidType: frtypes.BidTypeBatchWorth, Price: decFromNum(p0),
+						Coin: sdk.NewCoin("denomb", sdkmath.NewIntFromBigInt(amt0))}); err != nil {
+						return
+					}
 				}
 				s1, s2 := e.bal(bidder, "denoma"), e.bal(bidder2, "denoma")
 				if err := e.k.BeginBlocker(e.ctx.WithBlockTime(t0.Add(72 * time.Hour))); err != nil {
